@@ -13,6 +13,9 @@ Written from the RISC-V unprivileged ISA manual (RV32I, M, F, D chapters) and th
    level through the generic IR accessors: every SSA value holds one register pattern,
    `builtin.unrealized_conversion_cast` is a bit reinterpretation, `riscv_scf.for/while` run
    structurally, `riscv.parallel_mov` copies simultaneously, loads/stores go to a byte memory.
+   With `regmode=True` every value whose type names a physical register lives in that register instead
+   (a register file shared by all values): the same structured program, executed the way the allocated
+   registers behave -- a value whose register is overwritten while it is still needed is lost.
 3. `AsmMachine`: parses and executes *emitted assembly text* (labels, directives, comments, ABI register
    names, pseudo-instructions, `imm(reg)` memory operands) on a register file + byte-addressed memory,
    from an arbitrary initial state.
@@ -587,8 +590,10 @@ class SSAMachine:
     """Value-level execution of riscv-dialect SSA functions of one module."""
 
     def __init__(self, module, sp: int = 0x7FFF0000, mem_seed: int = 0, fuel: int = 200000,
-                 registers: dict | None = None):
+                 registers: dict | None = None, regmode: bool = False):
         self.module = module
+        self.regmode = regmode
+        self.regs: dict[str, int] = {}
         self.sp = sp & M32
         self.mem = Memory(mem_seed, (sp - 65536) & M32, min(sp + 65536, 1 << 32))
         self.fuel = fuel
@@ -608,7 +613,27 @@ class SSAMachine:
                 v = 0
         elif kind == "f":
             v &= M64
-        env[res] = v
+        if self.regmode and kind is not None and _reg_name(res.type):
+            self.regs[kind + ":" + _reg_name(res.type)] = v
+        else:
+            env[res] = v
+
+    def _get(self, env, val):
+        if self.regmode:
+            kind = _reg_kind(val.type)
+            if kind is not None and _reg_name(val.type):
+                rn = _reg_name(val.type)
+                if kind == "x" and rn == "zero":
+                    return 0
+                if kind == "x" and rn == "sp" and "x:sp" not in self.regs:
+                    return self.sp
+                key = kind + ":" + rn
+                if key not in self.regs:
+                    raise MachineFault(f"register {rn} read before any write")
+                return self.regs[key]
+        if val not in env:
+            raise MachineFault("use of an SSA value that has no definition on the executed path (dangling value)")
+        return env[val]
 
     def _tick(self):
         self.steps += 1
@@ -625,7 +650,7 @@ class SSAMachine:
         env = {}
         for a, v in zip(block.args, args):
             self._set(env, a, v)
-        kind, vals = self._block(block, env)
+        kind, vals = self._block(block, env)      # vals: read from the return operands (registers in regmode)
         if kind != "return":
             raise UnknownInstruction(f"function body ended with {kind}")
         return vals
@@ -641,7 +666,7 @@ class SSAMachine:
     def _op(self, op, env):
         self._tick()
         name = op.name
-        ins = [env[o] for o in op.operands]
+        ins = [self._get(env, o) for o in op.operands]
         dialect, _, mn = name.partition(".")
         if dialect in ("riscv", "rv32"):
             if mn in INT_RR:
@@ -666,6 +691,8 @@ class SSAMachine:
                 self._set(env, op.results[0], float_exec(mn, ins))
                 return None
             if mn in ("get_register", "get_float_register"):
+                if self.regmode:
+                    return None      # the value IS the register
                 rn = _reg_name(op.results[0].type)
                 if rn == "zero":
                     v = 0
@@ -726,6 +753,8 @@ class SSAMachine:
         if name == "riscv_func.return":
             return ("return", ins)
         if name == "riscv_func.call":
+            if self.regmode:
+                raise UnknownInstruction("riscv_func.call in register mode")
             callee = op.attributes["callee"].root_reference.data
             outs = self.call(callee, ins)
             for res, v in zip(op.results, outs):
@@ -758,13 +787,15 @@ class SSAMachine:
         raise UnknownInstruction(f"cast {src_t} -> {dst_t}")
 
     def _for(self, op, env):
+        block = op.regions[0].blocks[0]
+        if self.regmode:
+            return self._for_reg(op, env, block)
         lb, ub = env[op.lb], env[op.ub]
         if op.step_val is not None:
             step = env[op.step_val]
         else:
             step = op.step_attr.value.data & M32
         vals = [env[v] for v in op.iter_args]
-        block = op.regions[0].blocks[0]
         iv = lb
         while s32(iv) < s32(ub):
             self._tick()
@@ -781,7 +812,32 @@ class SSAMachine:
             self._set(env, res, v)
         return None
 
+    def _for_reg(self, op, env, block):
+        """The loop on the register file: `mv iv, lb`; the loop-carried values stay in their registers
+        (the op's verifier demands init / block argument / yield operand / result in one register; a
+        copy is performed where they differ); ub and step are re-read from their registers."""
+        ivv = block.args[0]
+        vals = [self._get(env, v) for v in op.iter_args]
+        self._set(env, ivv, self._get(env, op.lb))
+        for a, v in zip(block.args[1:], vals):
+            self._set(env, a, v)
+        while s32(self._get(env, ivv)) < s32(self._get(env, op.ub)):
+            self._tick()
+            kind, out = self._block(block, env)
+            if kind != "yield":
+                raise UnknownInstruction(f"riscv_scf.for body ended with {kind}")
+            for a, v in zip(block.args[1:], out):
+                self._set(env, a, v)
+            step = self._get(env, op.step_val) if op.step_val is not None else op.step_attr.value.data & M32
+            self._set(env, ivv, (self._get(env, ivv) + step) & M32)
+        vals = [self._get(env, a) for a in block.args[1:]]
+        for res, v in zip(op.results, vals):
+            self._set(env, res, v)
+        return None
+
     def _while(self, op, env):
+        if self.regmode:
+            raise UnknownInstruction("riscv_scf.while in register mode")
         vals = [env[v] for v in op.operands]
         before, after = op.regions[0].blocks[0], op.regions[1].blocks[0]
         while True:
